@@ -80,6 +80,11 @@ CLAIMS["C07"] = ("beaconnet", "property-based testing (rapid) of generated resha
     "The harness synthesises the next epoch (same secret, new polynomial) and applies it to real running handlers at generated instants; identity, continuity across the transition round and the exclusive validity of new shares are checked on recorded artefacts.",
     "Core's own orchestration code is re-implemented by the harness; real-DKG identity is covered by C06.", "DESIGN.md §3 C07")
 
+CLAIMS["C19"] = ("daemon", "enumeration of the (id x hash x endpoint) matrix over rapid-generated chain sets and load/stop/reload histories on a real multi-chain daemon; oracle = reference routing function + cryptographic attribution of every answer",
+    "The matrix is enumerated completely at every history point of every generated case; which chain answered is decided by which chain's key verifies the answer.",
+    "In-process calls to the daemon's service methods and real HTTP handler; single-member chains.", "DESIGN.md §3 C19")
+ENGINES_EXTRA.append({"name": "daemon", "path": "inpkg/internal__core", "serves_properties": ["C13", "C14", "C15", "C19"], "kind_free_text": "real DrandDaemon started in-package (overlay) from harness-written key/group/share files, fake clock, loopback listeners"})
+
 PENDING_REASON = "check not built yet in this session (planned, see DESIGN.md §3); not claimed until it exists and is silent on the unchanged tree"
 
 
